@@ -76,6 +76,7 @@ type Case struct {
 	// first one carries the competing values (the URL is bound to the first message of a stream).
 	Stream      bool `json:"stream"`
 	StreamExtra int  `json:"stream_extra"` // further (empty) messages after the first
+	Later       bool `json:"later"`        // another service is registered on the mux after the one under test
 	WS          bool `json:"ws"`
 	WSEmpty     int  `json:"ws_empty"`
 	WSBinary    bool `json:"ws_binary"`
@@ -226,7 +227,8 @@ func setText(m *dynamicpb.Message, field, text string) error {
 // Check drives one case and applies the oracle.
 func Check(c Case) (vs []evid.Violation, delivered bool) {
 	svc := dyn.Svc("Svc", dyn.MethodSpec{Name: "Do", In: ".c7.Req", Out: ".c7.Req", Rule: c.rule(), ClientStream: c.Stream})
-	w, err := dyn.NewWorld(dyn.File("c7.proto", "c7", msgs, nil, []*descriptorpb.ServiceDescriptorProto{svc}))
+	laterSvc := dyn.Svc("Later", dyn.MethodSpec{Name: "Other", In: ".c7.Req", Out: ".c7.Req"})
+	w, err := dyn.NewWorld(dyn.File("c7.proto", "c7", msgs, nil, []*descriptorpb.ServiceDescriptorProto{svc, laterSvc}))
 	if err != nil {
 		panic(err)
 	}
@@ -265,6 +267,13 @@ func Check(c Case) (vs []evid.Violation, delivered bool) {
 	}
 	if err := mux.VerifRegisterService(sd, nil); err != nil {
 		return []evid.Violation{evid.V("register", "", "rule %s body=%q rejected: %v", c.template(), c.Body, err)}, false
+	}
+	if c.Later {
+		// a later registration clones the routing state: the copy must carry every binding unchanged
+		later := w.ServiceDesc("c7.Later", func(ctx context.Context, fm string, req *dynamicpb.Message) (proto.Message, error) { return req, nil }, nil)
+		if err := mux.VerifRegisterService(later, nil); err != nil {
+			panic(err)
+		}
 	}
 
 	md := w.MsgDesc("c7.Req")
@@ -586,6 +595,7 @@ func genCase(t *rapid.T) Case {
 	if c.Body == "" {
 		c.OtherInBody = false
 	}
+	c.Later = rapid.IntRange(0, 3).Draw(t, "later") == 0
 	if rapid.IntRange(0, 9).Draw(t, "stream") == 0 {
 		c.Stream = true
 		c.StreamExtra = rapid.IntRange(0, 2).Draw(t, "streamExtra")
@@ -625,6 +635,9 @@ func classes(c Case, delivered bool) (string, []string) {
 	key += fmt.Sprintf("|json=%v|twice=%v|ws=%v,%d,%v", c.JSONKeys, c.QueryTwice, c.WS, c.WSEmpty, c.WSBinary)
 	if c.WS {
 		cl = append(cl, fmt.Sprintf("websocket-binding:empty-frames=%d", c.WSEmpty))
+	}
+	if c.Later {
+		cl = append(cl, "later-registration-on-the-mux")
 	}
 	if c.Stream {
 		cl = append(cl, "http-client-stream")
